@@ -29,8 +29,8 @@ type c09Case struct {
 }
 
 // shape catalogue: body of type number self with targets b, c
-const c09Shapes = 19
-const c09RootKinds = 7
+const c09Shapes = 20
+const c09RootKinds = 8
 
 // c09Sep spells the bar of a union by the type's number: blanks around it are optional.
 func c09Union(self int, names ...string) *model.Node {
@@ -79,6 +79,9 @@ func c09Shape(k int, self int, b, c string) (*model.Node, int) {
 	case 18:
 		// an EXPLICITLY required property: the only required form under KeysAreOptionalByDefault
 		return model.Obj(model.P("p", model.Ref(b).With(model.RBool("optional", false)))), 1
+	case 19:
+		// the inheriting object is an ITEM of an array (allOf rules are compiled wherever they stand)
+		return model.Obj(model.P("items", model.Arr(model.Obj(model.P(q, model.Int("1"))).With(model.RAllOf(b))))), 1
 	case 16:
 		// inheriting object WITHOUT a required key of its own (a middle link of an allOf chain)
 		return model.Obj(model.P(q, model.Int("1").With(model.RBool("optional", true)))).With(model.RAllOf(b)), 1
@@ -136,7 +139,7 @@ func c09Build(n int, bodies []c09Body, rootKind int) *model.Schema {
 		s.Types = append(s.Types, &model.TypeDef{Name: fmt.Sprintf("@t%d", i), Root: root})
 	}
 	s.Types = append(s.Types, &model.TypeDef{Name: "@k", Root: model.Str("kk").With(model.RStr("regex", "^k"))})
-	if rootKind == 6 {
+	if rootKind == 6 || rootKind == 7 {
 		// a LITERAL example declaring {type: "@t0"}: possible when every type is an integer leaf,
 		// an alias or a union of such (the example 1 is then a value of every inhabited type)
 		for i := 0; i < n; i++ {
@@ -146,6 +149,13 @@ func c09Build(n int, bodies []c09Body, rootKind int) *model.Schema {
 		}
 	}
 	switch rootKind {
+	case 7:
+		// the type is named by or rule-sets that carry another rule, and once more further down
+		// (UsedUserTypes lists it once)
+		s.Root = model.Obj(
+			model.P("x", model.Int("1").With(model.ROr(model.OrSet(model.RStr("type", "@t0"), model.RBool("nullable", true)), model.OrSet(model.RStr("type", "string"), model.RInt("minLength", 1))))),
+			model.P("y", model.Ref("@t0").With(model.RBool("optional", true))),
+			model.P("z", model.Int("1").With(model.ROr(model.OrSet(model.RStr("type", "@t0"), model.RBool("nullable", false)), model.OrSet(model.RStr("type", "boolean"))))))
 	case 6:
 		s.Root = model.Obj(model.P("x", model.Int("1").With(model.RStr("type", "@t0"))))
 	case 0:
